@@ -239,6 +239,23 @@ impl Seq {
         c
     }
 
+    /// An acknowledgement followed - without letting anything else run - by a jump of the clock:
+    /// time passes while whatever the call left queued is still queued. An ack that has returned
+    /// OK before the deadline is final even if the deadline passes right afterwards.
+    pub async fn ack_then_jump(&mut self, sub: &str, ids: &[String], jump: Duration) -> i32 {
+        let now = self.now();
+        let r = self.cx.ack(sub, ids).await;
+        let c = Self::code(&r);
+        let ret = self.now();
+        self.steps.push(format!("ack({},{:?})={}@{}ms then clock jumps {} ms", short(sub), ids, c, now / MS, jump.as_millis()));
+        if c == 0 {
+            self.m.acked(sub, ids, ret);
+        }
+        tokio::time::advance(jump).await;
+        self.after_step(if c == 0 { "Ack" } else { "Rejected" }).await;
+        c
+    }
+
     pub async fn modify(&mut self, sub: &str, ids: &[String], secs: i32) -> i32 {
         let exists = self.m.subs.contains_key(sub);
         let malformed = secs < 0 || ids.iter().any(|i| i.parse::<u64>().is_err());
